@@ -76,7 +76,7 @@ TECH = "Lean 4 theorem (induction over operation histories / invariants) + per-s
 
 PROPS = {
     "C01": {
-        "lean_modules": ["Cachelito.Props.C01", "Cachelito.Props.C01b", "Cachelito.Props.C01c", "Cachelito.Props.T07", "Cachelito.Props.T08", "Cachelito.Props.T09", "Cachelito.Props.T10", "Cachelito.Props.T11", "Cachelito.Props.T12", "Cachelito.Props.T17", "Cachelito.Props.T17m", "Cachelito.Props.T18"],
+        "lean_modules": ["Cachelito.Props.C01", "Cachelito.Props.C01b", "Cachelito.Props.C01c", "Cachelito.Props.T07", "Cachelito.Props.T08", "Cachelito.Props.T09", "Cachelito.Props.T10", "Cachelito.Props.T11", "Cachelito.Props.T12", "Cachelito.Props.T17", "Cachelito.Props.T17m", "Cachelito.Props.T18", "Cachelito.Props.S01"],
         "streams": [core_stream(nontrivial=["hit", "re-store"]), macro_stream(nontrivial=["hit"]),
                     sched_stream(nontrivial=['served-call-source-checked'], quick=(6, 8, 60), what="L3: scheduled runs of 2-3 real threads (calls racing with stores of the same key and with invalidations): every call returns the function's value for its own arguments, and a call served from the cache has a legitimate source (a store for the same arguments that no completed invalidation separates from it)")],
         "monitors": ["C01"],
@@ -98,7 +98,7 @@ PROPS = {
         "design_ref": "DESIGN.md §7 C02", "assumptions": ["float Debug injective on non-NaN"],
     },
     "C03": {
-        "lean_modules": ["Cachelito.Props.C03", "Cachelito.Props.C03c", "Cachelito.Props.T17", "Cachelito.Props.T17m", "Cachelito.Props.T18", "Cachelito.Props.T21"],
+        "lean_modules": ["Cachelito.Props.C03", "Cachelito.Props.C03c", "Cachelito.Props.T17", "Cachelito.Props.T17m", "Cachelito.Props.T18", "Cachelito.Props.T21", "Cachelito.Props.S01"],
         "streams": [macro_stream(nontrivial=["c03-call"]), hammer_stream(),
                     sched_stream(nontrivial=["c03-plain-concurrent-run", "calls-only-quiescent-check"], quick=(6, 8, 60),
                                  what="L3 calls-only programs: 2-3 real threads call ONE cache with overlapping arguments under the deterministic scheduler (switches at every lock acquisition, so lookups fall between the two halves of another thread's store); plain caches of every policy: once a storing call has returned no later call may run the body; limited caches: a stored key may vanish only from a FULL cache")],
@@ -167,7 +167,7 @@ PROPS = {
         "assumptions": ["monotone clock"],
     },
     "C07": {
-        "lean_modules": ["Cachelito.Props.C07", "Cachelito.Props.T02", "Cachelito.Props.T07", "Cachelito.Props.T08", "Cachelito.Props.T09", "Cachelito.Props.T10", "Cachelito.Props.T11", "Cachelito.Props.T12", "Cachelito.Props.T14", "Cachelito.Props.T15", "Cachelito.Props.T16"],
+        "lean_modules": ["Cachelito.Props.C07", "Cachelito.Props.T02", "Cachelito.Props.T07", "Cachelito.Props.T08", "Cachelito.Props.T09", "Cachelito.Props.T10", "Cachelito.Props.T11", "Cachelito.Props.T12", "Cachelito.Props.T14", "Cachelito.Props.T15", "Cachelito.Props.T16", "Cachelito.Props.S01"],
         "streams": [core_stream(filters=[["policy=fifo"], ["policy=lru"]], nontrivial=["eviction"])],
         "monitors": ["C07"],
         "rule": "FIFO and LRU episodes on all three engines under entry limits 1..4, memory limits and both; non-trivial = a store that evicted",
@@ -201,7 +201,7 @@ PROPS = {
         "assumptions": ["return type spelled Result<..> or std::result::Result<..>"],
     },
     "C10": {
-        "lean_modules": ["Cachelito.Props.C10", "Cachelito.Props.C09c", "Cachelito.Props.T17", "Cachelito.Props.T17m", "Cachelito.Props.T18"],
+        "lean_modules": ["Cachelito.Props.C10", "Cachelito.Props.C09c", "Cachelito.Props.T17", "Cachelito.Props.T17m", "Cachelito.Props.T18", "Cachelito.Props.S01"],
         "streams": [macro_stream(nontrivial=["c10-call"])],
         "monitors": ["C10"],
         "rule": "generated call histories on real generated functions with logged cache_if predicates answering from a script; non-trivial = a call of a function with cache_if",
@@ -210,7 +210,7 @@ PROPS = {
         "technique": TECH, "design_ref": "DESIGN.md §7 C10", "assumptions": [],
     },
     "C11": {
-        "lean_modules": ["Cachelito.Props.C11", "Cachelito.Props.T17", "Cachelito.Props.T17m", "Cachelito.Props.T18"],
+        "lean_modules": ["Cachelito.Props.C11", "Cachelito.Props.T17", "Cachelito.Props.T17m", "Cachelito.Props.T18", "Cachelito.Props.S01"],
         "streams": [macro_stream(nontrivial=["c11-call"])],
         "monitors": ["C11"],
         "rule": "generated call histories on real generated functions (sync global, thread-local, async) with logged invalidate_on checks whose verdict changes between calls; non-trivial = a call of a function with invalidate_on",
